@@ -19,11 +19,11 @@ ParseOK(e) ==
 ParseConf(e) == ("exp_ok" \in DOMAIN e) => (e.ok = e.exp_ok /\ (e.ok => e.sym = e.exp_sym))
 RoundTripOK(e) == /\ CompleteSym(e.sym) /\ e.ok /\ e.back = e.sym
 Next == /\ l <= Len(Rec)
-        /\ LET e == Rec[l] IN
-           /\ "panic" \notin DOMAIN e
-           /\ IF e.ev = "parse" THEN ParseOK(e) /\ (IF ParseConf(e) THEN TRUE ELSE PrintT(<<"NOTE", "parser verdict differs from the format specification", l>>))
-              ELSE IF e.ev = "roundtrip" THEN RoundTripOK(e)
-              ELSE FALSE
+        /\ (LET e == Rec[l] IN
+             /\ "panic" \notin DOMAIN e
+             /\ IF e.ev = "parse" THEN ParseOK(e) /\ (IF ParseConf(e) THEN TRUE ELSE PrintT(<<"NOTE", "parser verdict differs from the format specification", l>>))
+                ELSE IF e.ev = "roundtrip" THEN RoundTripOK(e)
+                ELSE FALSE) = TRUE
         /\ l' = l + 1
 Spec == Init /\ [][Next]_l
 Accepted == LET d == TLCGet("stats").diameter IN
